@@ -36,6 +36,9 @@
 #include <sys/wait.h>
 #include <fcntl.h>
 #include <unistd.h>
+#include <netinet/in.h>
+#include <sys/un.h>
+#include <arpa/inet.h>
 
 ssize_t __real_read(int, void *, size_t);
 ssize_t __real_write(int, const void *, size_t);
@@ -465,6 +468,254 @@ static int child_main(int argc, char **argv) {
 }
 
 /* ------------------------------------------------------------------ janet-visible helpers */
+
+/* ------------------------------------------------------------------ net.c callbacks driven in process (N lines)
+ * `c16io --netdrive <seed> <cases>`: net_callback_connect / net_callback_accept (external linkage in net.c) are registered
+ * with janet_async_start_fiber on a real, unconnected socket and fed generated JanetAsyncEvent sequences; the answers of
+ * getsockopt(SO_ERROR) / accept4 on the descriptor under test are injected.  After every event the observable effects are
+ * printed: tasks pushed on janet_vm.spawn (which fiber, signal, value), ev_callback cleared, TOCLOSE, listener slots, number of
+ * system calls.  checks/C16.py feeds the same events and answers to the Lean model (`NC` / `NA` commands of jm_c16). */
+extern void net_callback_connect(JanetFiber *fiber, JanetAsyncEvent event);
+extern void net_callback_accept(JanetFiber *fiber, JanetAsyncEvent event);
+int __real_getsockopt(int, int, int, void *, socklen_t *);
+int __real_accept4(int, struct sockaddr *, socklen_t *, int);
+static int nd_fd = -1, nd_so_errno = 0, nd_so_res = 0, nd_acc_errno = 0, nd_last_conn = -1;
+static long nd_so_calls = 0, nd_acc_calls = 0;
+
+int __wrap_getsockopt(int fd, int level, int opt, void *val, socklen_t *len) {
+    if (fd >= 0 && fd == nd_fd && level == SOL_SOCKET && opt == SO_ERROR) {
+        nd_so_calls++;
+        if (nd_so_errno) { errno = nd_so_errno; return -1; }
+        *(int *) val = nd_so_res;
+        return 0;
+    }
+    return __real_getsockopt(fd, level, opt, val, len);
+}
+
+int __wrap_accept4(int fd, struct sockaddr *a, socklen_t *al, int flags) {
+    if (fd >= 0 && fd == nd_fd) {
+        nd_acc_calls++;
+        if (nd_acc_errno) { errno = nd_acc_errno; return -1; }
+        nd_last_conn = socket(AF_UNIX, SOCK_STREAM | SOCK_CLOEXEC, 0);   /* a real descriptor stands for the connection */
+        return nd_last_conn;
+    }
+    return __real_accept4(fd, a, al, flags);
+}
+
+typedef struct { JanetFunction *function; } NdAcceptState;   /* posix NetStateAccept of net.c (shape asserted by tools/gen/net.py) */
+
+static void nd_value(Janet v, JanetStream *own) {
+    if (janet_checktype(v, JANET_NIL)) { printf("nil"); return; }
+    if (janet_checkabstract(v, &janet_stream_type)) {
+        JanetStream *s = janet_unwrap_abstract(v);
+        printf("%s", s == own ? "own" : (s->handle == nd_last_conn && nd_last_conn >= 0) ? "conn" : "otherstream");
+        return;
+    }
+    if (janet_checktype(v, JANET_STRING)) {
+        printf("\"");
+        for (const uint8_t *c = janet_unwrap_string(v); *c; c++) putchar(*c == ' ' ? '_' : *c);
+        printf("\"");
+        return;
+    }
+    printf("other");
+}
+
+#define ND_MAXEV 16
+/* one case: kind 0 connect, 1 accept, 2 accept-loop; ev[i] = JanetAsyncEvent (ev[0] is the INIT that janet_async_start_fiber
+ * delivers), fail[i] / val[i] = the kernel answer held ready for event i (connect: fail ? errno of getsockopt : SO_ERROR value;
+ * accept: fail ? errno of accept4 : a connection) */
+static void nd_run_case(JanetFunction *fn, int kind, int nev, const int *ev, const int *fail, const int *val) {
+    int fd = socket(AF_INET, SOCK_STREAM | SOCK_NONBLOCK | SOCK_CLOEXEC, 0);
+    if (fd < 0) { printf("SETUP-FAILED socket\n"); exit(3); }
+    JanetStream *st = janet_stream(fd, kind == 0 ? (JANET_STREAM_READABLE | JANET_STREAM_WRITABLE | JANET_STREAM_SOCKET)
+                                                  : (JANET_STREAM_ACCEPTABLE | JANET_STREAM_SOCKET), NULL);
+    janet_gcroot(janet_wrap_abstract(st));
+    JanetFiber *fib = janet_fiber(fn, 64, 0, NULL);
+    janet_gcroot(janet_wrap_fiber(fib));
+    nd_fd = fd;
+    printf("N %s", kind == 0 ? "C" : kind == 1 ? "A 0" : "A 1");
+    for (int e = 0; e < nev; e++) {
+        if (kind == 0) {
+            nd_so_errno = fail[e] ? val[e] : 0;
+            nd_so_res = fail[e] ? 0 : val[e];
+            printf(" %d:%s%d", ev[e], fail[e] ? "f" : "k", val[e]);
+        } else {
+            nd_acc_errno = fail[e] ? val[e] : 0;
+            printf(" %d:%s%d", ev[e], fail[e] ? "f" : "c", fail[e] ? val[e] : 0);
+        }
+        long so0 = nd_so_calls, ac0 = nd_acc_calls;
+        nd_last_conn = -1;
+        if (e == 0) {
+            void *state = NULL;
+            if (kind != 0) {
+                NdAcceptState *as = janet_malloc(sizeof(NdAcceptState));
+                as->function = kind == 2 ? fn : NULL;
+                state = as;
+            }
+            janet_async_start_fiber(fib, st, kind == 0 ? JANET_ASYNC_LISTEN_WRITE : JANET_ASYNC_LISTEN_READ,
+                                    kind == 0 ? net_callback_connect : net_callback_accept, state);
+        } else {
+            fib->ev_callback(fib, (JanetAsyncEvent) ev[e]);
+        }
+        /* observation */
+        printf(" >");
+        JanetTask t;
+        int ntask = 0;
+        while (!janet_q_pop(&janet_vm.spawn, &t, sizeof(t))) {
+            ntask++;
+            if (t.fiber == fib) {
+                printf(" self:%s:", t.sig == JANET_SIGNAL_OK ? "ok" : t.sig == JANET_SIGNAL_ERROR ? "err" : "sig?");
+                nd_value(t.value, st);
+            } else {
+                /* handler fiber: its single argument must be the stream of the descriptor accept4 just returned */
+                Janet arg = t.fiber->data[t.fiber->frame];
+                printf(" sub:%s:", t.sig == JANET_SIGNAL_OK ? "ok" : "err");
+                nd_value(arg, st);
+                printf(":%s", janet_checktype(t.value, JANET_NIL) ? "nil" : "val?");
+            }
+            janet_table_remove(&janet_vm.active_tasks, janet_wrap_fiber(t.fiber));
+        }
+        if (!ntask) printf(" -");
+        printf(" done=%d toclose=%d slotr=%d slotw=%d so=%ld acc=%ld", fib->ev_callback == NULL, !!(st->flags & JANET_STREAM_TOCLOSE),
+               st->read_fiber == fib, st->write_fiber == fib, nd_so_calls - so0, nd_acc_calls - ac0);
+        if (fib->ev_callback == NULL) break;
+    }
+    printf("\n");
+    if (fib->ev_callback) janet_async_end(fib);
+    nd_fd = -1;
+    janet_stream_close(st);
+    janet_gcunroot(janet_wrap_abstract(st));
+    janet_gcunroot(janet_wrap_fiber(fib));
+}
+
+/* --netdrive <seed> <cases>: generated cases;   --netseq: cases from stdin, one per line:  C|A0|A1 <event>:<k|f|c><n> ... */
+static int netdrive_main(int argc, char **argv) {
+    int fromstdin = !strcmp(argv[1], "--netseq");
+    uint64_t seed = argc > 2 ? strtoull(argv[2], NULL, 10) : 1;
+    int ncases = argc > 3 ? atoi(argv[3]) : 100;
+    rng_s = seed * 0x9E3779B97F4A7C15ULL + 77;
+    janet_init();
+    JanetTable *env = janet_core_env(NULL);
+    Janet fv;
+    if (janet_dostring(env, "(fn [&opt x] nil)", "netdrive", &fv) || !janet_checktype(fv, JANET_FUNCTION)) { printf("SETUP-FAILED\n"); return 3; }
+    janet_gcroot(fv);
+    JanetFunction *fn = janet_unwrap_function(fv);
+    static const int so_errs[] = { 111 /*ECONNREFUSED*/, 110 /*ETIMEDOUT*/, 113 /*EHOSTUNREACH*/, 104 /*ECONNRESET*/, 101 };
+    static const int sys_errs[] = { 9 /*EBADF*/, 88 /*ENOTSOCK*/, 14 };
+    static const int acc_errs[] = { 11 /*EAGAIN*/, 11, 11, 103 /*ECONNABORTED*/, 24 /*EMFILE*/, 4 /*EINTR*/ };
+    int ev[ND_MAXEV], fail[ND_MAXEV], val[ND_MAXEV];
+    int done = 0;
+    if (fromstdin) {
+        char line[1024];
+        while (fgets(line, sizeof line, stdin)) {
+            char *tok = strtok(line, " \n");
+            if (!tok) continue;
+            int kind = !strcmp(tok, "C") ? 0 : !strcmp(tok, "A0") ? 1 : 2;
+            int nev = 0;
+            while ((tok = strtok(NULL, " \n")) && nev < ND_MAXEV) {
+                char k;
+                if (sscanf(tok, "%d:%c%d", &ev[nev], &k, &val[nev]) != 3) break;
+                fail[nev] = k == 'f';
+                nev++;
+            }
+            if (nev) { nd_run_case(fn, kind, nev, ev, fail, val); done++; }
+        }
+    } else {
+        for (int k = 0; k < ncases; k++) {
+            int kind = (int)(rnd() % 3);
+            int nev = 1 + (int)(rnd() % 7);
+            for (int e = 0; e < nev; e++) {
+                ev[e] = e == 0 ? JANET_ASYNC_EVENT_INIT : (int)(rnd() % 10);
+                if (e > 0 && (rnd() % 4) == 0) ev[e] = JANET_ASYNC_EVENT_MARK;
+                if (e > 0 && (rnd() % 3) == 0) ev[e] = kind == 0 ? JANET_ASYNC_EVENT_WRITE : JANET_ASYNC_EVENT_READ;
+                if (kind == 0) {
+                    int c = (int)(rnd() % 6);
+                    fail[e] = c == 0;
+                    val[e] = c == 0 ? sys_errs[rnd() % 3] : c <= 2 ? so_errs[rnd() % 5] : 0;
+                } else {
+                    fail[e] = (int)(rnd() % 2);
+                    val[e] = fail[e] ? acc_errs[rnd() % 6] : 0;
+                }
+            }
+            nd_run_case(fn, kind, nev, ev, fail, val);
+            done++;
+            if (k % 64 == 63) janet_collect();
+        }
+    }
+    printf("DONE %d\n", done);
+    fflush(stdout);
+    janet_deinit();
+    return 0;
+}
+
+/* (c16/stall-listener) -> [port listener-fd filler-fd]: a TCP listener on 127.0.0.1 with backlog 0 whose accept queue is already
+ * full (one established, never accepted connection): the kernel drops further SYNs, so the next connect stays in progress until
+ * somebody accepts.  No wall clock involved. */
+static Janet c16_stall_listener(int32_t argc, Janet *argv) {
+    (void) argv;
+    janet_fixarity(argc, 0);
+    int l = socket(AF_INET, SOCK_STREAM | SOCK_CLOEXEC, 0);
+    struct sockaddr_in sa;
+    memset(&sa, 0, sizeof sa);
+    sa.sin_family = AF_INET;
+    sa.sin_addr.s_addr = htonl(INADDR_LOOPBACK);
+    socklen_t sl = sizeof sa;
+    if (l < 0 || bind(l, (struct sockaddr *) &sa, sizeof sa) || listen(l, 0) || getsockname(l, (struct sockaddr *) &sa, &sl)) janet_panic("stall-listener: cannot listen");
+    /* two non-blocking fillers: the first is established and sits in the accept queue (backlog 0 admits one), the second is
+     * there for kernels that admit none / two */
+    Janet t[4];
+    t[0] = janet_wrap_integer(ntohs(sa.sin_port));
+    t[1] = janet_wrap_integer(l);
+    for (int i = 0; i < 2; i++) {
+        int c = socket(AF_INET, SOCK_STREAM | SOCK_CLOEXEC | SOCK_NONBLOCK, 0);
+        if (c >= 0) (void) connect(c, (struct sockaddr *) &sa, sizeof sa);
+        t[2 + i] = janet_wrap_integer(c);
+    }
+    return janet_wrap_tuple(janet_tuple_n(t, 4));
+}
+
+/* (c16/burst-connect port-or-path k) -> tuple of k descriptors: k clients connect (blocking, plain C sockets) one after the other
+ * and each sends its two-digit ordinal; no janet code runs in between, so all k connections are queued between two iterations
+ * of the event loop. */
+static Janet c16_burst_connect(int32_t argc, Janet *argv) {
+    janet_fixarity(argc, 2);
+    int k = janet_getinteger(argv, 1);
+    Janet *fds = janet_tuple_begin(k);
+    for (int i = 0; i < k; i++) {
+        int c;
+        int r;
+        if (janet_checkint(argv[0])) {
+            struct sockaddr_in sa;
+            memset(&sa, 0, sizeof sa);
+            sa.sin_family = AF_INET;
+            sa.sin_addr.s_addr = htonl(INADDR_LOOPBACK);
+            sa.sin_port = htons((uint16_t) janet_getinteger(argv, 0));
+            c = socket(AF_INET, SOCK_STREAM | SOCK_CLOEXEC, 0);
+            r = c < 0 ? -1 : connect(c, (struct sockaddr *) &sa, sizeof sa);
+        } else {
+            struct sockaddr_un su;
+            memset(&su, 0, sizeof su);
+            su.sun_family = AF_UNIX;
+            snprintf(su.sun_path, sizeof su.sun_path, "%s", (const char *) janet_getstring(argv, 0));
+            c = socket(AF_UNIX, SOCK_STREAM | SOCK_CLOEXEC, 0);
+            r = c < 0 ? -1 : connect(c, (struct sockaddr *) &su, sizeof su);
+        }
+        if (r) janet_panicf("burst-connect: client %d cannot connect: %s", i, strerror(errno));
+        char id[4];
+        snprintf(id, sizeof id, "%02d", i % 100);
+        (void) !__real_write(c, id, 2);
+        fds[i] = janet_wrap_integer(c);
+    }
+    return janet_wrap_tuple(janet_tuple_end(fds));
+}
+
+/* (c16/close-fd fd) */
+static Janet c16_close_fd(int32_t argc, Janet *argv) {
+    janet_fixarity(argc, 1);
+    return janet_wrap_integer(__real_close(janet_getinteger(argv, 0)));
+}
+
+
 static Janet c16_note(int32_t argc, Janet *argv) {
     c16_init();
     if (trace) {
@@ -572,12 +823,16 @@ static const JanetReg c16_cfuns[] = {
     {"c16/slots", c16_slots, NULL},
     {"c16/pending", c16_pending, NULL},
     {"c16/sockbuf", c16_sockbuf, NULL},
+    {"c16/stall-listener", c16_stall_listener, NULL},
+    {"c16/close-fd", c16_close_fd, NULL},
+    {"c16/burst-connect", c16_burst_connect, NULL},
     {NULL, NULL, NULL}
 };
 
 int main(int argc, char **argv) {
     if (argc >= 3 && !strcmp(argv[1], "--fdlist")) return child_main(argc, argv);
     c16_init();
+    if (argc >= 2 && (!strcmp(argv[1], "--netdrive") || !strcmp(argv[1], "--netseq"))) return netdrive_main(argc, argv);
     /* signal dispositions are left exactly as src/mainclient/shell.c leaves them (it installs none): the harness must be the
      * same program as the `janet` client as far as SIGPIPE is concerned */
     janet_init();
